@@ -246,6 +246,24 @@ type PointRec struct {
 	Name string `json:"name"`
 	Peer int    `json:"peer"` // publisher index, -1 if none/unknown
 	Tick uint64 `json:"tick"`
+	G    uint64 `json:"g"`              // goroutine that passed the point / made the call
+	Key  int    `json:"key,omitempty"`  // harness records ("call", "ret", ...): the call they belong to
+	Info string `json:"info,omitempty"` // harness records: free-form payload
+}
+
+// Goid returns the id of the calling goroutine (parsed from its stack header).
+func Goid() uint64 {
+	var buf [64]byte
+	n := runtime.Stack(buf[:], false)
+	// "goroutine 123 [running]:"
+	var id uint64
+	for _, c := range buf[len("goroutine "):n] {
+		if c < '0' || c > '9' {
+			break
+		}
+		id = id*10 + uint64(c-'0')
+	}
+	return id
 }
 
 // Rule: the Nth (1-based) passage of Point (for publisher Peer, -1 = any) is held until
@@ -268,7 +286,8 @@ type Sched struct {
 	rules   []Rule
 	peers   map[peer.ID]int
 	rng     *vlib.Rand
-	random  int // 0 off; otherwise perturb about 1 in `random` passages
+	curG    uint64 // goroutine of the passage being noted (set under mu)
+	random  int    // 0 off; otherwise perturb about 1 in `random` passages
 	Held    atomic.Int64
 	// OnPoint, if set, is called (outside the lock) at every passage before rules apply.
 	OnPoint func(name string, peerIdx int)
@@ -296,8 +315,21 @@ func (s *Sched) Count(name string, peerIdx int) int {
 
 // Signal records an external event (e.g. "ext:close-returned") as a passage.
 func (s *Sched) Signal(name string, peerIdx int) uint64 {
+	g := Goid()
 	s.mu.Lock()
+	s.curG = g
 	t := s.note(name, peerIdx)
+	s.mu.Unlock()
+	return t
+}
+
+// Record appends a harness record (a call starting, returning, ...) to the log, in the same
+// total order as the yield-point passages.
+func (s *Sched) Record(name string, key int, info string) uint64 {
+	g := Goid()
+	s.mu.Lock()
+	t := Tick()
+	s.Log = append(s.Log, PointRec{Name: name, Peer: -1, Tick: t, G: g, Key: key, Info: info})
 	s.mu.Unlock()
 	return t
 }
@@ -308,7 +340,7 @@ func (s *Sched) note(name string, peerIdx int) uint64 {
 	if peerIdx != -1 {
 		s.counts[key(name, -1)]++
 	}
-	s.Log = append(s.Log, PointRec{name, peerIdx, t})
+	s.Log = append(s.Log, PointRec{Name: name, Peer: peerIdx, Tick: t, G: s.curG})
 	close(s.changed)
 	s.changed = make(chan struct{})
 	return t
@@ -346,7 +378,9 @@ func (s *Sched) At(name string, p peer.ID) {
 	if f := s.OnPoint; f != nil {
 		f(name, idx)
 	}
+	g := Goid()
 	s.mu.Lock()
+	s.curG = g
 	s.note(name, idx)
 	nAny := s.counts[key(name, -1)]
 	nPeer := s.counts[key(name, idx)]
@@ -404,6 +438,7 @@ type HookRec struct {
 	Peer int
 	Cid  cid.Cid
 	Tick uint64
+	G    uint64
 }
 
 type World struct {
@@ -425,12 +460,13 @@ func NewWorld(pubs []*Pub, opts ...dagsync.Option) *World {
 	}
 	hook := func(p peer.ID, c cid.Cid, _ dagsync.SegmentSyncActions) {
 		t := Tick()
+		g := Goid()
 		w.mu.Lock()
 		idx, ok := w.peers[p]
 		if !ok {
 			idx = -1
 		}
-		w.Hooks = append(w.Hooks, HookRec{idx, c, t})
+		w.Hooks = append(w.Hooks, HookRec{idx, c, t, g})
 		w.mu.Unlock()
 	}
 	all := append([]dagsync.Option{dagsync.RecvAnnounce(""), dagsync.BlockHook(hook)}, opts...)
@@ -533,4 +569,17 @@ func WaitNoLibGoroutines(grace time.Duration) []string {
 		}
 		time.Sleep(2 * time.Millisecond)
 	}
+}
+
+// HooksBy returns the number of block-hook calls made by goroutine g.
+func (w *World) HooksBy(g uint64) int {
+	w.mu.Lock()
+	defer w.mu.Unlock()
+	n := 0
+	for _, h := range w.Hooks {
+		if h.G == g {
+			n++
+		}
+	}
+	return n
 }
